@@ -182,6 +182,8 @@ def explore(scn, mon_cls, workers=None, max_states=None, max_seconds=None, closi
                 res.capped = 'depth %d' % max_depth
                 break
             depth += 1
+            if depth > 120:
+                raise HarnessError('search deeper than 120 events: some enabled event is not budgeted (%s)' % scn.name)
             if seed:
                 rnd.shuffle(frontier)
             nxt = []
